@@ -44,6 +44,7 @@ Definition step_kind (d : dstep) : Z :=
   match d with
   | DAppendB _ => 1 | DAppendF _ => 2 | DTruncB _ => 3 | DTruncF _ => 4
   | DIdxAdd _ => 5 | DIdxDel _ _ => 5 | DFTip _ => 5
+  | DRemoveF => 6
   end.
 
 (* root-cause classification of a crash point (ghost; does not influence behaviour) *)
@@ -71,3 +72,30 @@ Definition crash_tag (ds : list dstep) (k : nat) (torn : option Z) : Z :=
       end
     end
   end.
+
+(* ---------------- start-up paths ---------------- *)
+(* First start on an empty directory: NewBlockHeaderStore writes the genesis
+   header (file append, then one index transaction), then
+   NewFilterHeaderStore writes the genesis filter header (file append, then
+   the index tip). *)
+Definition first_steps_b (g : Z) : list dstep := steps_of empty_store (BWrite [(g, 0)] NoFault).
+Definition first_steps_f (g gfh : Z) : list dstep := [DAppendF [gfh]; DFTip g].
+
+(* crash in phase 1 (filter = false: inside the block store's genesis write)
+   or phase 2 (filter = true: block store complete, inside the filter store's) *)
+Definition first_start_crash (g gfh : Z) (filter : bool) (k : nat) (torn : option Z) : option store :=
+  if filter then
+    match apply_steps empty_store (first_steps_b g) with
+    | Some s1 => crash_state s1 (first_steps_f g gfh) k torn
+    | None => None
+    end
+  else crash_state empty_store (first_steps_b g) k torn.
+
+(* the filter store after a header state reset: genesis entry only, tip =
+   genesis block; the block store and the shared index entries are untouched *)
+Definition reset_state (g gfh : Z) (s : store) : store :=
+  {| bf := bf s; ff := {| ents := [gfh]; junk := 0 |}; idx := idx s; btip := btip s; ftip := Some g |}.
+
+(* crash point inside the reset that assertion [asr] triggers on [s] *)
+Definition reset_crash (g gfh : Z) (s : store) (k : nat) (torn : option Z) : option store :=
+  crash_state s (reset_steps gfh g) k torn.
